@@ -74,6 +74,7 @@ type poolSpec struct {
 	ReflectMetadata map[string]string // gun `reflect_metadata`
 	Authority       string            // gun `dial_options.authority`
 	NoTimeout       bool              // no `timeout` key at all: the gun's default (15 s) applies
+	AfterDecode     func()            // called between config decode (gun constructors run there) and Engine.Run
 	// YAMLShape: nested maps as yaml.v2 produces them (map[interface{}]interface{}, the acceptance
 	// tests' path) instead of viper's map[string]interface{} (the CLI's path)
 	YAMLShape bool
@@ -197,6 +198,9 @@ func runPool(rec *grpctarget.Rec, ps poolSpec, limit time.Duration) (error, erro
 		return fmt.Errorf("decoded %d pools", len(conf.Engine.Pools)), nil
 	}
 	p := &conf.Engine.Pools[0]
+	if ps.AfterDecode != nil {
+		ps.AfterDecode()
+	}
 	grpctarget.FirstShotDelay = ps.FirstShotDelay
 	p.Provider = &grpctarget.RecProvider{Inner: p.Provider, Rec: rec}
 	p.NewGun = grpctarget.WrapGunFactory(rec, p.NewGun)
